@@ -50,6 +50,7 @@ def run_forms(I, st, fr, inst, domb, ranb, field, stored, want=('oop', 'ip', 'al
         elif form == 'alias':
             out = x
         rec = {'x': x, 'out': out, 'xold': value_of(x)}
+        ev0 = len(st.events)
         try:
             rec['ret'] = real_call(I, fr, inst, x, out)
             rec['status'] = 'ok'
@@ -57,6 +58,7 @@ def run_forms(I, st, fr, inst, domb, ranb, field, stored, want=('oop', 'ip', 'al
             rec['status'] = 'raise'
             rec['exc'] = e.exc
         rec['xnew'] = value_of(x)
+        rec['aliased_operand_calls'] = [e for e in st.events[ev0:] if e[0] == 'opcall' and e[3] is not None and e[3] is e[2]]
         res['forms'][form] = rec
     res['stored_new'] = {k: value_of(v) for k, v in stored.items()}
     return res
@@ -91,6 +93,12 @@ def check_forms(ctx, st, I, fr, res, ranb, info, props=('C03',), expected=None, 
                 ctx.prove(st, 'oop:value == specification', lib.eq_goal(low, ref, expected), info)
         if isinstance(oop['x'], ip.Obj):
             ctx.prove(st, 'oop:input x unchanged', lib.eq_goal(low, oop['xnew'], oop['xold']), info)
+    if 'C03' in props:
+        for name in ('oop', 'ip'):
+            rec = forms.get(name)
+            if rec and rec['status'] == 'ok':
+                # an operand is an ARBITRARY operator: it need not tolerate its output being its input, so a non-aliased call of the expression must not call an operand that way
+                ctx.prove(st, '%s:no operand is evaluated with its output aliased to its input' % name, not rec.get('aliased_operand_calls'), dict(info, calls=repr(rec.get('aliased_operand_calls'))[:300]))
     ipr = forms.get('ip')
     if ipr and ipr['status'] == 'ok' and 'C03' in props:
         ctx.prove(st, 'ip:returns the very object out', ipr['ret'] is ipr['out'], info)
